@@ -176,7 +176,31 @@ def col_case(draw, tier, specials=True):
             "lz": draw(st.sampled_from(LAZY_CHOICES))}
 
 
+def body_sequence(case, ctx):
+    """2-5 column aggregates (different kinds, spellings, columns) asked of ONE array object in a generated order: every
+    answer against the model, whatever was asked before"""
+    global lazy_ra
+    a, rows, ra = common(case, ctx, "sequence:%d" % len(case["ops"]))
+    build, lazy_ra = lazy_ra, (lambda *args, **kw: ra)
+    try:
+        for kind, spell, j in case["ops"]:
+            ctx.label("seq:" + kind)
+            {"sum": body_sum, "counts": body_counts, "mean": body_mean, "values": body_colvalues}[kind](dict(case, spell=spell, j=j), ctx)
+    finally:
+        lazy_ra = build
+
+
+@st.composite
+def sequence_case(draw, tier):
+    case = draw(col_case(tier, specials=False))
+    op = st.tuples(st.sampled_from(["sum", "counts", "mean", "values", "values"]), st.sampled_from(["method", "np"]), st.integers(0, 1000)).map(list)
+    case["ops"] = draw(st.lists(op, min_size=2, max_size=5))
+    return case
+
+
 SUBCHECKS = [
+    SubCheck("aggregate-sequence", body_sequence, sequence_case, quick=4000, thorough=250000, shards_quick=3,
+             doc="2-5 column aggregates of different kinds / columns on one array object, each against the model"),
     SubCheck("column-sum", body_sum, col_case, quick=7000, thorough=400000, shards_quick=4,
              doc="sum(axis=0) / np.sum(axis=0): per column the sum over exactly the rows that reach it (bool: count)"),
     SubCheck("column-sum-64bit", body_sum_large, large_case, quick=3000, thorough=200000, shards_quick=2,
